@@ -1,7 +1,8 @@
 SPECIFICATION SpecExplain
 CONSTANTS
-  Files = {"r", "a"}
+  Files = {"r", "b"}
   Root = "r"
+  SubFiles = {"b"}
   MaxDepth = 8
   FileSeq <- Seq2
   MaxStmts = 0
